@@ -142,6 +142,9 @@ type Program struct {
 	Faults   []Fault `json:"faults,omitempty"`
 	// free-form per-property parameters (e.g. kill index)
 	Params map[string]int64 `json:"params,omitempty"`
+	// Schedule is the scheduler's choice stream (CONC engines): at each decision
+	// point the next value selects among the enabled actions (mod their number).
+	Schedule []int `json:"schedule,omitempty"`
 }
 
 func (p *Program) Clone() *Program {
